@@ -24,6 +24,8 @@ var redirectTable = map[string]string{
 	"net/http.NotFound":                               "ModelHTTPNotFound",
 	"net/http.Error":                                  "ModelHTTPError",
 	"(net/http.Header).Set":                           "ModelHeaderSet",
+	"github.com/gorilla/mux.SetURLVars":               "ModelMuxSetURLVars",
+	"github.com/gorilla/mux.Vars":                     "ModelMuxVars",
 	"encoding/json.NewEncoder":                        "ModelJSONNewEncoder",
 	"(*encoding/json.Encoder).Encode":                 "ModelJSONEncode",
 	"encoding/json.NewDecoder":                        "ModelJSONNewDecoder",
